@@ -677,6 +677,182 @@ if __name__ == "__main__":
         out += proj_lemma(d, known2 + bnames_block, True); known2.append(d.name)
     out += ["", "end PM"]
     wr("MsqProofs/Lemmas/ParseCostProjStmt.lean", "\n".join(out) + "\n")
+
+    # ============================================================================ the linear bound
+    adq = rd("MsqProofs/Lemmas/ParseAdqDefs.lean")
+    RANK, MEAS, SFXH = {}, {}, {}
+    for m in re.finditer(r"^  (\w+) : ∀ [^,]*, (?:Sfx (\w+) (\w+) → )?(\d+) \+ \((.*?)\) ≤ n → ", adq, re.M):
+        RANK[m.group(1)] = int(m.group(4)); MEAS[m.group(1)] = m.group(5)
+        if m.group(2): SFXH[m.group(1)] = (m.group(2), m.group(3))
+    MEAS["pSplit"] = "adqWL x1 + adqWL x2"        # the walk is paid where the group is popped (pInBody); a flush is paid by its comma
+    BD = dict((d.name, d) for d in block)
+    PD = dict((d.name, d) for d in pre)
+
+    def kind(d):
+        if d.ret.startswith("R ") or d.name == "pFirstArg": return "R"
+        if "Option (Expr × List Tok)" in d.ret: return "O"
+        return "E"
+
+    def split_plus(e):
+        return [x.strip() for x in top_split(e, " + ")]
+
+    def cmax(e):
+        e = e.strip()
+        while e.startswith("(") and balanced(e, 0) == len(e): e = e[1:-1].strip()
+        if e.startswith("match r with"): return 2
+        parts = split_plus(e)
+        if len(parts) > 1 and not e.startswith("if "): return sum(cmax(x) for x in parts)
+        if e.startswith("if "):
+            pp = P(e); n, _ = pp.term(0)
+            return max(cmax(n.a.text if n.a.kind == "leaf" else flat_if(n.a)), cmax(n.b.text if n.b.kind == "leaf" else flat_if(n.b)))
+        if e.isdigit(): return int(e)
+        if e.startswith("cMove") or e.startswith("cAlias"): return 3
+        if e.startswith("cFuncName"): return 6
+        if e.startswith("cCastType"): return 63
+        if e.startswith("cClosed") or e.startswith("cCloseStack"): return 1
+        if e.startswith("cSplit"): return 2
+        if e.startswith("cFirstEnum Gen.joinTypes"): return 23
+        if e.startswith("cFirstEnum Gen.unionTypes"): return 11
+        if e.startswith("cMatchSeq"):
+            m = re.search(r"\[(.*)\]", e)
+            if m: return 1 + len(re.findall(r'"[^"]*"', m.group(1)))
+            return 7          # a word list passed as a parameter (`pNamedIndex`, `pKwTable`): at most 6 words in the model
+        if e.endswith(".children.length"): return 0
+        raise SystemExit("cmax: " + e)
+
+    def flat_if(n):
+        return "if %s then %s else %s" % (n.cond, n.a.text if n.a.kind == "leaf" else flat_if(n.a), n.b.text if n.b.kind == "leaf" else flat_if(n.b))
+
+    CF = {}
+    # `pKwRest` calls `pKwBody` on the tail of its cursor, but hands its own cursor back when `pKwBody` finds no keyword: that call is paid by the constant
+    FORCED = {("pKwRest", "pKwBody")}
+    SLACK = {"pJoin": 30, "pLateral": 30}
+
+    def getc(g):
+        if g not in CF:
+            CF[g] = -1
+            CF[g] = (getc("pCompute") + 2) if g == "pSplit" else const_of(BD[g])
+        assert CF[g] >= 0, "cycle of non-consuming calls at " + g
+        return CF[g]
+
+    def callee_c(fn, g, allc):
+        """what a call of `g` adds to the constant of `fn`: its own constant when it may run on the unconsumed cursor (lower rank)"""
+        if g == "eachClosed": return 0
+        if g in BD:
+            if allc: return CF.get(g, 0)
+            if (fn, g) in FORCED: return getc(g)
+            return getc(g) if fn in BD and RANK[g] < RANK[fn] else (getc(g) if fn not in BD else 0)
+        return CF.get(g, 0)
+
+    def pathmax(fn, n, seen, allc):
+        if n.kind == "leaf":
+            g = head_fn(n.text)
+            return sum(cmax(c) for c in site_cost(fn, "leaf", n.text, seen)) + (callee_c(fn, g, allc) if g else 0)
+        if n.kind == "if":
+            c = sum(cmax(c) for c in cond_cost(fn, n, seen))
+            return c + max(pathmax(fn, n.a, set(seen), allc), pathmax(fn, n.b, set(seen), allc))
+        if n.kind == "let":
+            c = sum(cmax(c) for c in site_cost(fn, "let", n.bind, seen))
+            return c + pathmax(fn, n.body, seen, allc)
+        sc = n.scrut
+        g = head_fn(sc); mc = re.match(r"closed \((.*)\)$", sc); gc = head_fn(mc.group(1)) if mc else None
+        nested = sc.startswith("(") and balanced(sc, 0) == len(sc) and re.match(r"\((match|if) ", sc)
+        c = 0 if nested else sum(cmax(x) for x in site_cost(fn, "scrut", sc, seen))
+        if nested: c += pathmax(fn, parse_body(sc[1:-1]), seen, allc)
+        if g: c += callee_c(fn, g, allc)
+        if gc: c += callee_c(fn, gc, allc) + 1
+        if mc and not gc: c += 1
+        best = 0
+        for pat, body in n.arms:
+            ac = lookup(fn, "arm", pat)
+            best = max(best, (cmax(ac) if ac else 0) + pathmax(fn, body, set(seen), allc))
+        return c + best
+
+    def const_of(d, allc=False):
+        if d.name in HAND: return None
+        if d.arms is None: return pathmax(d.name, parse_body(d.body), set(), allc)
+        return max(pathmax(d.name, b, set(), allc) for _, b in d.arms)
+
+    for d in pre: CF[d.name] = const_of(d)
+    for d in block: getc(d.name)       # pSplit: one compute expression and one close() per flush; the last flush is not paid by a comma
+    TMAX = max([const_of(d, True) or 0 for d in pre + block])
+    SEGP = ["pCompute", "pGroupingElem"]          # parsers run on every segment of a split: the unit per segment (`adqWLL`) has to pay their constant and the close()
+    CM = max(2 * ((TMAX + 40) // 38 + 1), 2 * ((max(CF[g] for g in SEGP) + 4) // 2 + 1))
+    if "--consts" in sys.argv:
+        for d in pre + block: print("%-16s rank %2d  c = %d" % (d.name, RANK.get(d.name, 0), CF[d.name]))
+        print("largest path sum", TMAX, " CM =", CM)
+    EXTRA_RHS = {"pSingleParen": " + x2.length"}
+
+    def field(d, fuel):
+        a = len(d.arrows) - 1
+        nm = d.name
+        app = "%s_k d %s %s κ" % (nm, fuel, xs(a))
+        mu = "%d * (%s)" % (CM, MEAS[nm])
+        hyp = ("Sfx %s %s → " % SFXH[nm]) if nm in SFXH else ""
+        k = kind(d)
+        lhs = "(%s).1 + rem (%s).2" % (app, app) if k == "R" else "(%s).1 + remO (%s) (%s).2" % (app, mu, app) if k == "O" else "(%s).1" % app
+        if nm in SLACK: lhs = "(%s).1 + remS %d (%s).2" % (app, SLACK[nm], app)
+        return "∀ %s κ, %s%s ≤ κ + %s + %d%s" % (xs(a), hyp, lhs, mu, CF[nm], EXTRA_RHS.get(nm, ""))
+
+    BGRIND = "grind -funext (gen := 40) (instances := 20000) [adqWL_append, Lost]"
+    hand0 = open(os.path.join(ROOT, "tools", "dev", "ParseCostBnd0.lean.in"), encoding="utf-8").read().replace("CMV", str(CM)).replace("`CM ", "`%d " % CM).replace("CM *", "%d *" % CM)
+    wr("MsqProofs/Lemmas/ParseCostBnd0.lean", hand0)
+    out = ["import MsqProofs.Lemmas.ParseCostBnd0", "/-! GENERATED by tools/gen_cost.py — C19: the linear bound, helpers of Parse/Expr.lean and the induction hypothesis of the block (constants: tools/gen_cost.py --consts) -/"] + POPTS
+    bknown = []
+
+    def helper_bnd(d, known_b):
+        nm = d.name
+        bn = bnames(d)
+        k = kind(d)
+        haves = ["  have h_%s := %s_bnd" % (c, c) for c in known_b if c != nm and uses(c, d.src)]
+        if d.arms is None:
+            app = "%s_k %s κ" % (nm, " ".join(bn))
+            cur = "ts" if "ts" in bn else None
+            mu = "%d * adqWL %s" % (CM, cur) if cur else "%d * adqWL g.children" % CM
+            lhs = "(%s).1 + rem (%s).2" % (app, app) if k == "R" else "(%s).1" % app
+            return ["theorem %s_bnd %s (κ : Nat) : %s ≤ κ + %s + %d := by" % (nm, d.binders, lhs, mu, CF[nm])] + haves + \
+                   ["  generalize h : %s = out" % app, "  unfold %s_k at h" % nm, "  split_run <;> " + BGRIND, ""]
+        a = len(d.arrows)
+        app = "%s_k %s κ" % (nm, xs(a))
+        lhs = "(%s).1 + rem (%s).2" % (app, app) if k == "R" else "(%s).1" % app
+        rest = " ".join("x%d" % i for i in range(1, a))
+        return ["theorem %s_bnd : ∀ %s κ, %s ≤ κ + %d * adqWL x%d + %d := by" % (nm, xs(a), lhs, CM, a - 1, CF[nm])] + haves + \
+               ["  intro x0", "  induction x0 with", "  | zero => intro %s κ; simp only [%s_k, rem_error, remO_error]; omega" % (rest, nm), "  | succ n ih =>", "    intro %s κ" % rest,
+                "    generalize h : %s_k (n+1) %s κ = out" % (nm, rest), "    unfold %s_k at h" % nm, "    split_run <;> " + BGRIND, ""]
+
+    for d in pre:
+        out += helper_bnd(d, bknown); bknown.append(d.name)
+    out.append("/-- the induction hypothesis for the mutual block -/")
+    out.append("structure BndF (d : Gen.D) (n : Nat) : Prop where")
+    for d in block: out.append("  %s : %s" % (d.name, field(d, "n")))
+    out += ["", "end PM"]
+    wr("MsqProofs/Lemmas/ParseCostBndDefs.lean", "\n".join(out) + "\n")
+    NB = 8
+    for k in range(NB):
+        out = ["import MsqProofs.Lemmas.ParseCostBndDefs", "/-! GENERATED by tools/gen_cost.py — C19 linear bound: fuel step for the mutual block, part %d of %d -/" % (k + 1, NB)] + POPTS + ["variable (d : Gen.D)", ""]
+        for d in block[k::NB]:
+            a = len(d.arrows) - 1
+            body = " ".join(flat(b) for _, b in d.arms) if d.name not in HAND else HAND[d.name]
+            out.append("theorem bndF_%s (n : Nat) (ih : BndF d n) :" % d.name)
+            out.append("    %s := by" % field(d, "(n+1)"))
+            out.append("  intro %s κ%s" % (xs(a), " hsfx" if d.name in SFXH else ""))
+            out.append("  have hC := consF_all d n")
+            out.append("  have hP := projF_all d n")
+            for c in bknown:
+                if uses(c, body): out += ["  have h_%s := %s_bnd" % (c, c), "  have p_%s := %s_proj" % (c, c)]
+            for c in bnames_block:
+                if uses(c, body) or uses(c + "_k", body): out += ["  have h_%s := ih.%s" % (c, c), "  have p_%s := hP.%s" % (c, c)]
+            out += ["  clear ih hP", "  generalize h : %s_k d (n+1) %s κ = out" % (d.name, xs(a)), "  unfold %s_k at h" % d.name, "  split_run <;> " + BGRIND, ""]
+        out += ["end PM"]
+        wr("MsqProofs/Lemmas/ParseCostBndE%d.lean" % (k + 1), "\n".join(out) + "\n")
+    out = ["import MsqProofs.Lemmas.ParseCostBndE%d" % (k + 1) for k in range(NB)] + ["/-! GENERATED by tools/gen_cost.py — C19 linear bound: the mutual block, induction on the fuel -/"] + POPTS + ["variable (d : Gen.D)", ""]
+    out += ["theorem bndF_all : ∀ n, BndF d n := by", "  intro n", "  induction n with",
+            "  | zero => constructor <;> (intros; simp only [" + ", ".join(d.name + "_k" for d in block) + ", rem_error, remO_error, remS_error]; omega)",
+            "  | succ n ih => exact ⟨" + ", ".join("bndF_%s d n ih" % d.name for d in block) + "⟩", ""]
+    for d in block:
+        out.append("theorem %s_bnd (n : Nat) : %s := (bndF_all d n).%s" % (d.name, field(d, "n"), d.name))
+    out += ["", "end PM"]
+    wr("MsqProofs/Lemmas/ParseCostBnd.lean", "\n".join(out) + "\n")
     unused = [k for k in SITES if k not in USED]
     if unused: print("UNUSED SITES:", unused)
     print(len(pre), "helpers,", len(block), "block functions,", len(STMT), "statement-level functions")
